@@ -276,6 +276,12 @@ def r4_required_reaches_graph(chk: Check):
 
     cfgcalls = [n for n, c in gh.call_nodes(lambda c: src(c) == f"{hp}.__xpm__.validate()") if guarded(n, "Config")]
     chk.require(bool(cfgcalls), chk.fkey(helper, "Config"), "nested configurations are not validated", hloc)
+    for n in cfgcalls:
+        cb = [b for b in gh.live if b.kind == "branch" and b.extra["test"].kind == "test" and src(b.extra["test"].ast) == f"isinstance({hp}, Config)" and b.extra["polarity"] is True]
+        ok = bool(cb) and all(gh.on_every_path([n], start=b) for b in cb)
+        chk.require(ok, chk.fkey(helper, "Config validated unconditionally"),
+                    "a nested configuration is validated only under an extra condition: e.g. configurations produced by task_outputs() carry a task link but were never validated by the producing task, "
+                    "so a required value missing there is accepted at submission", hloc)
     for kind, it_text, what in (("list", hp, "list elements"), ("dict", f"{hp}.values()", "dict values")):
         loops_k = [n for n in gh.live if n.kind == "for" and guarded(n, kind)]
         ok = False
@@ -311,10 +317,28 @@ def r5_submit_validates_first(chk: Check):
     c14.r3_submit_order(chk)
 
 
+def r6_type_resolution(chk: Check):
+    """Declared types are resolved exactly: the table of basic types is looked up by the key itself (an Enum that also
+    derives from int / str must stay an enumeration), and enumerations are recognised before any structural fallback"""
+    tree = chk.tree
+    f = tree.func("core.types", "Type.fromType")
+    g = CFG(f.node)
+    rd = ReachingDefs(g)
+    loc = chk.loc(f.module, f.node)
+    lookups = [(n, c) for n, c in g.call_nodes(lambda c: src(c.func) in ("Type.DEFINED.get",) or (isinstance(c.func, ast.Attribute) and c.func.attr == "get" and "DEFINED" in src(c.func.value)))]
+    subs = [x for x in body_walk(f.node) if isinstance(x, ast.Subscript) and "DEFINED" in src(x.value)]
+    bad = [src(c) for n, c in lookups if not (c.args and src(c.args[0]) == "key")] + [src(x) for x in subs if src(x.slice) != "key"]
+    chk.require(bool(lookups) and not bad, chk.fkey(f, "exact lookup"), f"Type.fromType looks basic types up with {bad}: only the declared type itself may select a basic type "
+                "(a base-class lookup turns IntEnum / (str, Enum) parameters into plain int / str parameters that accept any number / string)", loc)
+    en = [n for n in g.live if n.kind == "test" and src(n.ast) == "issubclass(key, Enum)"]
+    chk.require(len(en) == 1, chk.fkey(f, "enum recognised"), "Type.fromType must recognise enumeration classes", loc)
+
+
 RULES = [
     ("R1", "every Type.validate is total: no non-raising path returns None / falls off the end (except None stays None)", r1_validate_total),
     ("R2", "ConfigInformation.set decision table over all 64 assignments of its atoms on an unsealed configuration: stores the *validated* value, raises when sealed / read-only / required-None; nobody else stores into values; Argument.validate returns the coerced value", r2_set_table),
     ("R3", "documented coercions and container validation: integral float -> int, int -> float, str -> Path; every element / key / value validated and the container rebuilt; Union raises when no member accepts", r3_coercions),
     ("R4", "the required-value check reaches the whole graph: direct values, list elements, dict *values*, pre-tasks, init tasks; missing required (not generated) raises", r4_required_reaches_graph),
+    ("R6", "declared types are resolved exactly: basic types by the key itself, enumerations recognised", r6_type_resolution),
     ("R5", "submit validates and seals before anything is registered (= C14.R3)", r5_submit_validates_first),
 ]
